@@ -50,6 +50,8 @@ public:
         QObject::connect(client.get(), &QXmppClient::stateChanged, this, [this](QXmppClient::State st) {
             if (st == QXmppClient::ConnectedState) {
                 ++connectedStateReports;
+            } else if (st == QXmppClient::ConnectingState) {
+                ++connectingStateReports;
             }
         });
         QObject::connect(client.get(), &QXmppClient::errorOccurred, this, [this](const QXmppError &e) { ++errorSignals; events << QStringLiteral("SIG error ") + e.description.left(60); });
@@ -243,6 +245,7 @@ public:
     QStringList events;
     int connectedSignals = 0, disconnectedSignals = 0, errorSignals = 0;
     int connectedStateReports = 0;   // stateChanged(ConnectedState) emissions
+    int connectingStateReports = 0;   // stateChanged(ConnectingState) emissions
     QString error;
 };
 
